@@ -100,7 +100,9 @@ def get_file_metadata(path, hashes):
         yield st.st_mtime
 
         f = open(fd, 'rb')
-    except Exception:
+    except BaseException:
+        # includes GeneratorExit, i.e. the caller not asking
+        # for the remaining data
         if opened:
             os.close(fd)
         raise
